@@ -146,7 +146,7 @@ Section SpecFacts.
   Proof.
     intros id path rest fields fields' v r Hp H. cbn [frontier] in *.
     destruct (path_last path) as [nm|]; [|discriminate].
-    destruct (peel v) as [| | | | | | |n vals|n args| |]; try discriminate;
+    destruct (peel v) as [| | | | | | | |n vals|n args| |]; try discriminate;
       try (exists r; split; [exact H|apply Permutation_refl]).
     destruct (String.eqb n nm); [|exists r; split; [exact H|apply Permutation_refl]].
     replace (forallb _ vals) with
@@ -179,7 +179,7 @@ Section SpecFacts.
   Proof.
     intros id path rest fields fp v Hin. cbn [frontier].
     destruct (path_last path) as [nm|]; [|reflexivity].
-    destruct (peel v) as [| | | | | | |n vals|n args| |]; try reflexivity.
+    destruct (peel v) as [| | | | | | | |n vals|n args| |]; try reflexivity.
     destruct (String.eqb n nm); [|reflexivity].
     replace (forallb (fun fv => existsb _ (fields ++ [fp])) vals) with
       (forallb (fun fv => existsb (fun fp => match root_field_name (fst fp) with
@@ -247,5 +247,16 @@ Section SpecFacts.
        |rewrite Z.ltb_irrefl|replace (k <=? k - 1)%Z with false by (symmetry; apply Z.leb_gt; lia)
        |replace (k + 1 =? k)%Z with false by (symmetry; apply Z.eqb_neq; lia)|rewrite Z.eqb_refl; cbn [negb]];
       eexists; reflexivity.
+  Qed.
+
+  (* C01 on a partial order: a value incomparable with the operand (an f64 NaN) satisfies `!=` and nothing else —
+     in particular neither `>=` nor `<=`, which are not the complements of `<` and `>` *)
+  Theorem cmp_incomparable : forall id op osp x k,
+    ueval c x = Some (VFloat (Some k)) ->
+    (op <> OpNe -> exists en, frontier c u (PCmp id op osp x) (VFloat None) = Some [en]) /\
+    (op = OpNe -> frontier c u (PCmp id op osp x) (VFloat None) = Some []).
+  Proof.
+    intros id op osp x k H. cbn [frontier]. rewrite H. unfold leaf, cmp_holds. cbn [peel].
+    split; intros Hop; destruct op; try congruence; try (eexists; reflexivity); reflexivity.
   Qed.
 End SpecFacts.
